@@ -449,7 +449,9 @@ impl C17 {
                 let legit = mid_out != mid_in || thr_fail;
                 if legit {
                     cov.probe("two_hop_rejected_for_listed_reason");
-                } else if matches!(two_hop_code, Some(6036) | Some(6037) | Some(6051)) {
+                } else if matches!(two_hop_code, Some(c) if (6000..6100).contains(&c)) {
+                    // (any refusal of the program's own - a threshold, a mismatch, a closed trade gate, a tick-array sequence -
+                    // needs a reason that the two single swaps would have met as well)
                     out.push(viol("rejected_without_reason", idx, format!("two-hop failed with {:?} but both legs succeed alone with matching intermediate amount {} and the threshold {} is met (paid {}, got {})", two_hop_code, mid_out, a.threshold, paid, got)));
                 } else {
                     // other failures (funds, stale arrays for the composed path, ...) are environmental
